@@ -75,6 +75,35 @@ def gen_cases(rng, tier):
             a = rat(Fraction(rng.randint(-10 ** 5, 10 ** 5), 100))
             ops.append(["q_hash_stable", f"{a}@{cur}", rng.choice(list(C12.CONVS))])
         cases.append({"ops": ops, "fork": True, "ctx": "money-hash", "nsetup": n0, "tags": ["money-hash"]})
+    # derived types over a base type WITHOUT reference unit (money per mass,
+    # temperature per duration): units of different scale; whatever the code
+    # answers for their equality, equal ones must hash equal
+    from props import _money
+    for _ in range(4 if tier == "thorough" else 1):
+        codes = ["EUR", "USD"]
+        ops = [["load_predefined"]] + _money.setup(codes)
+        ops.append(["decl_class", "PricePerMass", "c:Money^1;c:Mass^-1", "-", "0", "-"])
+        ops.append(["decl_class", "Heating", "c:Temperature^1;c:Duration^-1", "-", "0", "-"])
+        syms = []
+        for cur in codes:
+            for xu in ("g", "kg", "t"):
+                ops.append(["derive_unit", "PricePerMass", f"{cur},{xu}", "-"])
+                syms.append((f"{cur}/{xu}", {"g": Fraction(1, 1000), "kg": Fraction(1), "t": Fraction(1000)}[xu]))
+        for tu in ("K", "°C"):
+            for du in ("s", "min", "h"):
+                ops.append(["derive_unit", "Heating", f"{tu},{du}", "-"])
+                syms.append((f"{tu}/{du}", {"s": Fraction(1), "min": Fraction(60), "h": Fraction(3600)}[du]))
+        n0 = len(ops)
+        for (u, ku) in syms:
+            for (v, kv) in syms:
+                if u.split("/")[0] != v.split("/")[0] and rng.random() < .7:
+                    continue
+                x = Fraction(rng.randint(-50, 50), rng.choice([1, 2, 10]))
+                # the same value per base unit, and another one
+                ops.append(["q_hash", f"{rat(x)}@{u}", f"{rat(x * kv / ku)}@{v}"])
+                ops.append(["q_hash", f"{rat(x)}@{u}", f"{rat(x)}@{v}"])
+        cases.append({"ops": ops, "fork": True, "ctx": "refless-derived", "nsetup": n0,
+                      "tags": ["refless-derived"]})
     return cases
 
 
@@ -88,6 +117,15 @@ def oracle(case, impl):
         return [f for f in C09.oracle(case, impl) if f["site"] in ("rate:eq-hash", "rate:eq")]
     if case.get("ctx") is None:
         return [f for f in C07.oracle(case, impl) if f["site"] in ("term:eq-hash",)]
+    if case.get("ctx") == "refless-derived":
+        fails = [{"site": "setup", "msg": f"{o} -> {out}"}
+                 for o, out in list(zip(case["ops"], impl))[:case["nsetup"]] if not out.startswith("ok")]
+        for o, out in list(zip(case["ops"], impl))[case["nsetup"]:]:
+            if not out.startswith("ok "):
+                fails.append({"site": "hash:raises", "msg": f"{o} -> {out}"})
+            elif "eq=true" in out and "hasheq=true" not in out:
+                fails.append({"site": "hash:quantity", "msg": f"{o} -> {out}"})
+        return fails
     if case.get("ctx") == "money-hash":
         return [{"site": "hash:unstable", "msg": f"{o} -> {out}"}
                 for o, out in list(zip(case["ops"], impl))[case["nsetup"]:]
